@@ -558,5 +558,15 @@ def r4c_outcome_store_is_total(chk: Check) -> None:
         chk.undecided("C12.R4c", "<discovery>", f"sites={n}", "outcome setters not found")
 
 
+def r7_memo(chk: Check) -> None:
+    from . import shared
+
+    P = chk.project
+    mods = ('engine/control.py', 'engine/context.py', 'engine/phases/unit/__init__.py', 'engine/phases/unit/_executor.py', 'engine/phases/stateful/_executor.py', 'engine/phases/stateful/context.py', 'generation/hypothesis/builder.py', 'generation/stateful/state_machine.py', 'specs/openapi/stateful/control.py')
+    fns = [f for m in mods if m in P.by_relpath for f in P.module(m).functions.values() if not isinstance(f.node, ast.Lambda)]
+    shared.memo_key_rule(chk, "C12.R7", fns, {("_set_cache_entry", "data"): "a setter: the value to store is handed in by get(), which computed it for this key", ("_get_body_strategy", "operation"): "a parameter belongs to exactly one operation (stated next to the cache)"},
+                         "MEMO-KEY(anchor modules of this property): limits and outcomes are looked up per case: a cache keyed by less answers for another case", floor=0)
+
+
 def rules(tier: str) -> list:  # type: ignore[type-arg]
-    return [r1_stop_checks, r2_failure_limit, r3_plumbing, r4_unique_inputs, r4b_cache_writers, r5_ratelimit, r6_stop_before_join, r4c_outcome_store_is_total]
+    return [r1_stop_checks, r2_failure_limit, r3_plumbing, r4_unique_inputs, r4b_cache_writers, r5_ratelimit, r6_stop_before_join, r4c_outcome_store_is_total, r7_memo]
